@@ -26,6 +26,7 @@ TRUSTED = ["pyvc symbolic semantics; z3 5.1.0", "shape enumeration of operands i
 ASSUMPTIONS = [
     "one memory source operand per consumer instruction in the proof units (loops over sources are concrete; more operands only in the bounded unit)",
     "ISASemantics.get_reg_changes executes YAML 'operation' strings with exec(): outside the subset, bounded stand-in only",
+    "_update_reg_changes: aliasing between register operands is symmetric and transitive over the entries of the table of written operands (register families, C12 contract); one instruction does not write two views of one register; the post-index pass reports constant/unknown changes of a base only",
     "register names of the load are fixed representatives (a, b); store names and tracked origins range over {a,b,c} symbolically (names are only compared for equality)",
 ]
 NAMES = ["a", "b", "c"]
@@ -239,19 +240,32 @@ def memstore_unit(res):
     return res
 
 
+def tb(v):
+    return v.t if isinstance(v, SBool) else z3.BoolVal(bool(v))
+
+
 def update_changes_unit(res):
-    """_update_reg_changes: state per register in {untracked, unknown(None), (origin, delta)}; a constant change adds to
-    delta, a copy takes the source's delta (+ its own constant) and the source's ORIGIN (copy chains) whatever the register
-    held before (also after an unknown change), an unknown change, a constant added to an unknown value or an unknown source
-    makes the register unknown; registers not mentioned are untouched; the register operands the
-    instruction writes are recorded (views written so far) in the pre-access pass."""
+    """_update_reg_changes, stated over what the change table MEANS (C06: constant increments, decrements and register copies
+    are accounted for; anything else makes the register unknown).  A register R is KNOWN in a table iff its entry is not None and
+    no other view of it (an operand with another name that aliases it per the C12 contract) was written since; a known register
+    has (origin, delta).  For one instruction with the changes get_reg_changes reports:
+      - a constant change keeps R's knownness and adds to delta; an unknown change makes R unknown;
+      - a copy (own constant allowed) makes R known with the SOURCE's origin and delta + constant iff the source is known at
+        that point (not None, not written through another view), whatever R held before - also when R had been written through
+        another view of it; otherwise R is unknown;
+      - a register P the instruction does not write: written through another view afterwards iff it was before or one of the
+        operands the instruction writes is another view of it (pre-access pass; the post-index pass records no writes);
+      - entries of registers not mentioned are untouched (same object, same contents, not shared)."""
     ex = eng()
     ex.load(REPO + "/" + ISA)
-    for st_a, st_b, ch, post_pass in itertools.product(("absent", "unknown", "tracked"), ("absent", "unknown", "tracked"),
-                                                       ("none", "unknown", "const", "copy_b", "copy_c"), (False, True)):
+    for st_a, st_b, ch, post_pass, prev in itertools.product(("absent", "unknown", "tracked"), ("absent", "unknown", "tracked"),
+                                                             ("none", "unknown", "const", "copy_b", "copy_c", "copy_nosrc"), (False, True), ("e1", "e1+b+a")):
+        if post_pass and ch.startswith("copy"):
+            continue  # the post-index pass reports constant or unknown changes of a base register only (get_reg_changes, only_postindexed)
         va, vb, dv = z3.Ints("va vb dv")
         oa = BStr.fresh("oa", 1)
         ob = BStr.fresh("ob", 1)
+        al = {}
 
         def run():
             state = {}
@@ -263,20 +277,55 @@ def update_changes_unit(res):
                 state["b"] = None
             elif st_b == "tracked":
                 state["b"] = {"name": ob, "value": SNum(vb, True)}
-            change = {"none": {}, "unknown": {"a": None}, "const": {"a": {"name": "a", "value": SNum(dv, True)}},
-                      "copy_b": {"a": {"name": "b", "value": SNum(dv, True)}}, "copy_c": {"a": {"name": "c", "value": SNum(dv, True)}}}[ch]
+            src = {"copy_b": "b", "copy_c": "c", "copy_nosrc": "c"}.get(ch)
+            change = {"none": {}, "unknown": {"a": None}, "const": {"a": {"name": "a", "value": SNum(dv, True)}}}.get(ch, {"a": {"name": src, "value": SNum(dv, True)}})
+            R = lambda name, prefix=None, tag=None: SObj("RegisterOperand", _name=name, _prefix=prefix, tag=tag or name)
+            A, Bop, C, P = R("a"), R("b"), R("c"), R("p")
+            W0, W1 = R("w0"), R("1", "xw", tag="w1")
+            E1 = R("e1")
+            names = {id(o): o.fields["tag"] for o in (A, Bop, C, P, W0, W1, E1)}
+
+            def dep(ex_, so, a, kw):
+                k = (names.get(id(a[0]), "?" + str(id(a[0]))), names.get(id(a[1]), "?" + str(id(a[1]))))
+                k = tuple(sorted(k))  # aliasing is symmetric (C12)
+                if k[0] == k[1]:
+                    return SBool(z3.BoolVal(True))
+                al.setdefault(k, z3.Bool("alias_%s_%s" % k))
+                return SBool(al[k])
+
+            ex.abstract["is_reg_dependend_of"] = dep
             sem = SObj("ArchSemantics")
-            written = [SObj("RegisterOperand", _name="w0", _prefix=None), SObj("RegisterOperand", _name="w1", _prefix="x")]
-            other = SObj("MemoryOperand")
-            iform = SObj("InstructionForm", _semantic_operands={"source": [SObj("RegisterOperand", tag="s")], "destination": [written[0], other], "src_dst": [written[1]]})
-            prev_views = {"earlier": SObj("RegisterOperand", tag="earlier")}
+            other = SObj("MemoryOperand", _base=C if ch == "copy_c" else None, _index=None)
+            sources = {"copy_b": [Bop], "copy_c": [other], "copy_nosrc": []}.get(ch, [SObj("ImmediateOperand")])
+            iform = SObj("InstructionForm", _semantic_operands={"source": sources, "destination": ([A] if ch != "none" else []) + [W0, SObj("MemoryOperand", _base=None, _index=None)], "src_dst": [W1]})
+            prev_views = {"e1": E1}
+            if prev == "e1+b+a":
+                # earlier FULL writes of b and a themselves (same name: not another view)
+                prev_views["b"] = Bop
+                prev_views["a"] = R("a", tag="a_prev")
+                names[id(prev_views["a"])] = "a"
             state[""] = dict(prev_views)
+            kdg = SObj("KernelDG", arch_sem=sem, parser=SObj("Parser"))
+            def tainted(o, st_):
+                # the MEANING of the table of written operands (the real _changed_through_other_view is verified against the same
+                # reading through is_memload, unit other-view-written): some operand with another name that aliases o was written
+                nm = (o.fields["_prefix"] or "") + o.fields["_name"]
+                views = st_.get("", {})
+                if not isinstance(views, dict):
+                    raise Unsupported("table of written operands is not a dict")
+                return z3.Or([z3.BoolVal(False)] + [tb(dep(ex, None, [o, w], {})) for k_, w in views.items() if k_ != nm])
+
+            t0 = {k_: tainted(o, state) for k_, o in (("a", A), ("b", Bop), ("c", C), ("p", P))}
             seen = []
             ex.abstract["get_reg_changes"] = lambda ex_, so, a, kw: seen.append((a, kw)) or change
             ex.extra["state_b_before"] = state.get("b", "ABSENT")
-            out = ex.call_method("KernelDG", "_update_reg_changes", SObj("KernelDG", arch_sem=sem), [iform, state] + ([True] if post_pass else []))
+            out = ex.call_method("KernelDG", "_update_reg_changes", kdg, [iform, state] + ([True] if post_pass else []))
             ex.extra["same"] = out is state
-            ex.extra["views"] = (prev_views, written)
+            t1 = {k_: tainted(o, out) for k_, o in (("a", A), ("b", Bop), ("c", C), ("p", P))}
+            ex.extra["taint"] = (t0, t1)
+            aliasb = lambda x, y: tb(dep(ex, None, [x, y], {}))
+            ex.extra["alias"] = dict(p_written=z3.Or([aliasb(P, w) for w in ([A] if ch != "none" else []) + [W0, W1]]),
+                                     a_w=z3.Or(aliasb(A, W0), aliasb(A, W1)), trans=z3.And([z3.Implies(z3.And(aliasb(P, x), aliasb(A, x)), aliasb(P, A)) for x in prev_views.values()]))
             # the changes asked for are those of this instruction and of the requested pass
             ex.extra["asked"] = len(seen) == 1 and seen[0][0][0] is iform and bool((seen[0][0][1:] or [seen[0][1].get("only_postindexed", False)])[0]) == post_pass
             return out
@@ -286,13 +335,13 @@ def update_changes_unit(res):
         def post(v, p):
             if not isinstance(v, dict) or not p.extra["same"]:
                 return False
+            t0, t1 = p.extra["taint"]
+            AL = p.extra["alias"]
             g = [z3.BoolVal(bool(p.extra["asked"]))]
-            # the written register operands (destination and read-modify-write) are appended to the list of views written so
-            # far - in the pre-access pass only -; nothing is removed from it
-            prev_views, written = p.extra["views"]
-            views = v.get("")
-            want_views = dict(prev_views, **({} if post_pass else {"w0": written[0], "xw1": written[1]}))  # keyed by prefix + name
-            g.append(z3.BoolVal(isinstance(views, dict) and set(views) == set(want_views) and all(views[k_] is want_views[k_] for k_ in want_views)))
+            # hypotheses about the operands (C12 contract / one instruction does not write two views of one register)
+            hyp = z3.And(AL["trans"], z3.Not(AL["a_w"]))
+            # a register the instruction does not write
+            g.append(t1["p"] == (t0["p"] if post_pass else z3.Or(t0["p"], AL["p_written"])))
             # b is never touched: same entry, same contents, and not shared with a's entry
             vb_now = v.get("b", "ABSENT")
             g.append(z3.BoolVal(vb_now is p.extra["state_b_before"]))
@@ -300,35 +349,44 @@ def update_changes_unit(res):
             if isinstance(vb_now, dict):
                 g.append(z3.BoolVal(a is not vb_now and set(vb_now) == {"name", "value"} and vb_now["name"] is ob))
                 g.append(real_term(vb_now["value"]) == z3.ToReal(vb))
-            if ch == "none":
-                g.append(z3.BoolVal((a == "ABSENT") == (st_a == "absent")))
-                return z3.And(g)
-            if ch == "unknown" or (st_a == "unknown" and ch == "const"):
-                # an unknown change, or a constant added to an unknown value; a COPY of another register makes a register
-                # known again whatever it held before (statement: register copies are accounted for)
-                g.append(z3.BoolVal(a is None))
-                return z3.And(g)
-            if ch == "const":
-                if not isinstance(a, dict):
-                    return False
-                base = va if st_a == "tracked" else z3.IntVal(0)
-                g.append(real_term(a["value"]) == z3.ToReal(base + dv))
-                g.append(ex.eq_term(a["name"], oa if st_a == "tracked" else "a"))
-                return z3.And(g)
-            src = "b" if ch == "copy_b" else "c"
-            src_state = st_b if src == "b" else "absent"
-            if src_state == "unknown":
-                g.append(z3.BoolVal(a is None))
-                return z3.And(g)
-            if not isinstance(a, dict):
-                return False
-            sv = vb if src_state == "tracked" else z3.IntVal(0)
-            g.append(real_term(a["value"]) == z3.ToReal(sv + dv))
-            # the origin is the register the SOURCE started from (a copy of a copy), the source itself if it is untracked
-            g.append(ex.eq_term(a["name"], ob if (src == "b" and src_state == "tracked") else src))
-            return z3.And(g)
+            known0_a = z3.And(z3.BoolVal(st_a != "unknown"), z3.Not(t0["a"]))
+            known1_a = z3.And(z3.BoolVal(a is not None), z3.Not(t1["a"]))
 
-        res.add_paths(paths, post, kind=f"{st_a}/{st_b}/{ch}/post={int(post_pass)}")
+            def value_is(origin, delta):
+                if a == "ABSENT":  # untracked = (itself, 0)
+                    return z3.And(ex.eq_term(origin, "a"), delta == 0)
+                if not isinstance(a, dict):
+                    return z3.BoolVal(False)
+                return z3.And(ex.eq_term(a["name"], origin), real_term(a["value"]) == z3.ToReal(delta))
+
+            if ch == "none":
+                g.append(z3.BoolVal((a == "ABSENT") == (st_a == "absent") and (a is None) == (st_a == "unknown")))
+                g.append(t1["a"] == (t0["a"] if post_pass else z3.Or(t0["a"], AL["a_w"])))
+            elif ch == "unknown":
+                g.append(z3.Not(known1_a))
+            elif ch == "const":
+                g.append(known1_a == known0_a)
+                g.append(z3.Implies(known1_a, value_is(oa if st_a == "tracked" else "a", (va if st_a == "tracked" else z3.IntVal(0)) + dv)))
+            else:
+                src = "b" if ch == "copy_b" else "c"
+                src_state = st_b if src == "b" else "absent"
+                # (a source register that is not among the instruction's operands cannot be examined for other views)
+                src_taint = t0[src] if ch != "copy_nosrc" else z3.BoolVal(False)
+                known0_src = z3.And(z3.BoolVal(src_state != "unknown"), z3.Not(src_taint))
+                g.append(known1_a == known0_src)
+                sv = vb if src_state == "tracked" else z3.IntVal(0)
+                # the origin is the register the SOURCE started from (a copy of a copy), the source itself if it is untracked
+                g.append(z3.Implies(known0_src, value_is(ob if (src == "b" and src_state == "tracked") else src, sv + dv)))
+            import os
+            if os.environ.get("PYVC_C06_DEBUG"):
+                from pyvc.runner import discharge
+                for n_, c_ in enumerate(g):
+                    r_ = discharge(list(p.pc) + [hyp], c_)
+                    if r_["status"] != "discharged":
+                        print("DEBUG", st_a, st_b, ch, post_pass, prev, "clause", n_, r_["status"], c_, flush=True)
+            return z3.Implies(hyp, z3.And(g))
+
+        res.add_paths(paths, post, kind=f"{st_a}/{st_b}/{ch}/post={int(post_pass)}/{prev}")
     return res
 
 
